@@ -78,6 +78,14 @@ def run_stack(ivs, masses, route):
             r = stacking([list(i) for i in ivs], weights=masses)
         elif route == "dss":
             r = pba.DempsterShafer(intervals=[list(i) for i in ivs], masses=masses if masses is not None else [1 / len(ivs)] * len(ivs)).to_pbox()
+        elif route == "stacking-dss":          # stacking asked for the DS structure, converted afterwards
+            r = stacking([list(i) for i in ivs], weights=masses if masses is not None else [1 / len(ivs)] * len(ivs), return_type="dss").to_pbox()
+        elif route == "interval-objects":      # Interval objects instead of lists
+            from pyuncertainnumber.pba.intervals.number import Interval
+            r = stochastic_mixture(*[Interval(float(i[0]), float(i[1])) for i in ivs], weights=masses)
+        elif route == "vec-interval":          # one vectorised Interval
+            from pyuncertainnumber.pba.intervals.number import Interval
+            r = stacking(Interval([float(i[0]) for i in ivs], [float(i[1]) for i in ivs]), weights=masses)
         else:
             r = stochastic_mixture(*[list(i) for i in ivs], weights=masses)
         return ("ok", [float(v) for v in r.left], [float(v) for v in r.right])
@@ -215,6 +223,16 @@ def body(chk):
                            f"(its cumulated mass reaches the level) and [3,5] at the next level; got [{o[1][k]},{o[2][k]}] and "
                            f"[{o[1][min(k + 1, len(g) - 1)]},{o[2][min(k + 1, len(g) - 1)]}]", rep)
     # witness of the open finding O26
+    # the remaining public routes give the same p-box as stacking (bit for bit)
+    for i in range(12 if chk.tier == "quick" else 120):
+        ivs, masses, tag = gen_structure(rng, shapes[i % 4], chk.tier)
+        base = run_stack(ivs, masses, "stacking")
+        for route in ("stacking-dss", "interval-objects", "vec-interval"):
+            o = run_stack(ivs, masses, route)
+            chk.count(f"route-{route}", key=(route, tag, i))
+            if o != base and not (o[0] == base[0] == "exc"):
+                chk.report(f"{route}:route", f"{route} differs from stacking on the same focal elements and masses" + (f": {o[2]}" if o[0] == "exc" else ""),
+                           {"kind": "route", "intervals": ivs, "masses": masses, "route": route})
     from pyuncertainnumber.pba.aggregation import stochastic_mixture
     chk.count("witness-O26", key="O26")
     try:
